@@ -191,6 +191,10 @@ class Files:
         self.text("g_empty.bnf", "")
         for n, (txt, _) in CONSTRAINTS.items():
             self.text(f"c_{n}.isla", txt)
+        for n, (txt, _) in CONNECTIVE.items():
+            self.text(f"c_k{n}.isla", txt)
+        self.text("c_zfollow.isla", FOLLOW[0])
+        self.text("in_bba.txt", "bba\n")
         self.text("in_ok2.txt", "ba\n")
         self.text("in_ok1.txt", "a\n")
         self.text("in_syn.txt", "c\n")
@@ -427,6 +431,18 @@ def fill_tables(case, fs):
         except Exception as e:
             tb.check[tid] = f"(ChkRaise {lib.exn_name(e)})"
         info["tid"] = tid
+        if len(sources) >= 2:
+            ind = []
+            for c in sources:
+                try:
+                    si = ISLaSolver(grammar, tb.forms[tb.isla[c]], structural_predicates=STANDARD_STRUCTURAL_PREDICATES,
+                                    semantic_predicates=STANDARD_SEMANTIC_PREDICATES)
+                    ind.append(bool(si.check(tree)))
+                except SemanticError:
+                    ind.append(False)
+                except Exception:
+                    ind.append(None)
+            info["individual"] = ind
     return tb, info
 
 
@@ -454,10 +470,25 @@ def gs(x):
     return POOL[x]
 
 
+POOL_HEADER = ("From Coq Require String Ascii.\nImport Coq.Strings.String.StringSyntax.\n"
+               "Fixpoint sos (s : String.string) : str := match s with String.EmptyString => [] "
+               "| String.String a r => Ascii.N_of_ascii a :: sos r end.\n")
+
+
 def pool_defs(text):
+    """definitions of the pooled strings used in `text`.  ASCII strings are written as Coq string literals and converted
+    by `sos` under vm_compute (parsing a list of N numerals is ~100x slower); anything else as a list of code points."""
     used = set(re.findall(r"\bS(\d+)\b", text))
     inv = {v: k for k, v in POOL.items()}
-    return "\n".join(f"Definition S{n} : str := {g_str(inv['S' + n])}." for n in sorted(used, key=int))
+    out = [POOL_HEADER, "Open Scope string_scope."]
+    rest = []
+    for n in sorted(used, key=int):
+        x = inv["S" + n]
+        if all(0 < ord(c) < 128 for c in x):
+            out.append(f'Definition S{n} : str := Eval vm_compute in sos "' + x.replace('"', '""') + '".')
+        else:
+            rest.append(f"Definition S{n} : str := {g_str(x)}.")
+    return "\n".join(out + ["Close Scope string_scope."] + rest)
 
 
 def token(r):
@@ -737,7 +768,28 @@ def gen_cases(fs, rng, thorough):
         Case("solve", [gab, P("g_over.bnf"), ctrue], n=0, timeout="1", tag="n=0 on a one-word language"),
         Case("solve", [], tag="no arguments"),
     ]
-    return cases + S
+    # C. several constraints, a NON-LAST one with a top-level connective (or / implies / iff / xor): the exit code must be
+    #    that of the conjunction of the individually parsed constraints (a textual join "K and C" re-associates)
+    K = []
+    good = {"or": "bba", "implies": "bba", "iff": "bba", "xor": "bbbbba"}
+    zf = P("c_zfollow.isla")
+    for n, (ktxt, _) in CONNECTIVE.items():
+        kf = P(f"c_k{n}.isla")
+        for inp in ("a", good[n], "ba"):          # "a": K holds through one operand, the FOLLOWing constraint is violated
+            tag = f"C connective {n} input={inp}"
+            K += [Case("check", [gab], cs=[ktxt, FOLLOW[0]], i=inp, tag=tag + " -c -c"),
+                  Case("check", [gab, zf], cs=[ktxt], i=inp, tag=tag + " -c file"),
+                  Case("check", [gab, kf, zf], i=inp, tag=tag + " file file"),
+                  Case("check", [zf, gab, kf] + [P("in_ok1.txt") if inp == "a" else P("in_bba.txt") if inp == "bba" else P("in_ok2.txt")],
+                       tag=tag + " file file, other order, input file") if inp != "bbbbba" else
+                  Case("check", [gab, cle3, zf], cs=[ktxt], i=inp, tag=tag + " -c file file"),
+                  Case("check", [gab, zf], cs=["true", ktxt], i=inp, tag=tag + " -c -c file")]
+        K += [Case("parse", [gab], cs=[ktxt, FOLLOW[0]], i="a", tag=f"C connective {n} parse -c -c"),
+              Case("parse", [gab, kf, zf], i=good[n], tag=f"C connective {n} parse file file")]
+    K += [Case("solve", [gab], cs=[CONNECTIVE["or"][0], FOLLOW[0]], n=1, tag="C connective or solve -c -c"),
+          Case("solve", [gab, P("c_kimplies.isla"), zf], n=1, tag="C connective implies solve file file"),
+          Case("solve", [gab, zf], cs=[CONNECTIVE["or"][0]], n=1, tag="C connective or solve -c file")]
+    return cases + S + K
 
 
 def expect_class(case, fs, ex, log):
@@ -809,8 +861,11 @@ def detect_fixes(fs):
 
 def _run(run, rng, thorough, root, known):
     fs = Files(root)
-    fxs = detect_fixes(fs)
-    run.cov["get_input_string_repairs_present"] = fxs
+    # both get_input_string repairs are in /repo (0c20d1c, baa6e7c; entries marked fixed): the model is FORCED to the
+    # repaired behaviour, so that a regression of either is a disagreement + an unrecorded traceback (VIOLATION)
+    fxs = {"empty": True, "json": True}
+    run.cov["get_input_string_repairs_present"] = detect_fixes(fs)
+    run.cov["model_fixes_forced"] = fxs
     cases = gen_cases(fs, rng, thorough)
     mods, meta = [], []
     hist_cmd, hist_exit, hist_k = {}, {}, {}
@@ -842,6 +897,13 @@ def _run(run, rng, thorough, root, known):
                 prop_fail.append({"clause": "no uncaught traceback", "witness": meta[-1]})
             continue
         want = spec_expect(case, fs)
+        ind = (info or {}).get("individual")
+        if case.cmd in ("check", "parse") and ind and None not in ind and ex[1] in (0, 1):
+            run.count(("conjunction", case.key()), True)
+            hist_k["several constraints"] = hist_k.get("several constraints", 0) + 1
+            if (ex[1] == 0) != all(ind):
+                prop_fail.append({"clause": f"{case.cmd} must exit {0 if all(ind) else 1}: several constraints are combined by conjunction "
+                                            f"(evaluated one by one: {ind})", "witness": meta[-1]})
         if want is not None and ex[1] != want:
             prop_fail.append({"clause": f"{case.cmd} must exit {want}", "witness": meta[-1]})
         if want == 65 and ex[1] == 65 and not se.strip():
@@ -891,7 +953,7 @@ def _run(run, rng, thorough, root, known):
     run.cov["cases"] = len(cases)
 
     # ---- model vs implementation, inside Coq ----
-    per = max(12, -(-len(mods) // lib.NPROC))
+    per = max(12, -(-len(mods) // 4))      # few shards: loading Cli/ZArith costs more than the cases
     shards = []
     for s in range(0, len(mods), per):
         text = "\n".join(mods[s:s + per])
@@ -953,6 +1015,18 @@ def _run(run, rng, thorough, root, known):
 CONSTRAINTS_BY_TEXT = {t: f for (t, f) in CONSTRAINTS.values() if f is not None}
 CONSTRAINTS_BY_TEXT["str.len(<start>) > 5"] = lambda s: len(s) > 5
 CONSTRAINTS_BY_TEXT["str.len(<start>) >= 3"] = lambda s: len(s) >= 3
+# constraints with a TOP-LEVEL connective (name -> text, predicate) and the constraint that follows them.
+# Joining the sources textually ("K and C") instead of conjoining the parsed formulas changes the meaning,
+# because `and` binds tighter than or / xor / implies / iff:  K = X op Y  becomes  X op (Y and C).
+CONNECTIVE = {
+    "or": ('<start> = "a" or <start> = "bba"', lambda s: s == "a" or s == "bba"),
+    "implies": ('str.len(<start>) > 1 implies <start> = "bba"', lambda s: (not len(s) > 1) or s == "bba"),
+    "iff": ('<start> = "ba" iff str.len(<start>) = 2', lambda s: (s == "ba") == (len(s) == 2)),
+    "xor": ('<start> = "a" xor str.len(<start>) > 5', lambda s: (s == "a") != (len(s) > 5)),
+}
+FOLLOW = ("str.len(<start>) > 1", lambda s: len(s) > 1)
+for _t, _f in list(CONNECTIVE.values()) + [FOLLOW]:
+    CONSTRAINTS_BY_TEXT[_t] = _f
 
 
 def _is_json(s):
